@@ -15,10 +15,17 @@ for f in sorted(glob.glob("seeded/*/meta.json")):
         print(name, "no check", chk)
         continue
     since = time.time()
-    p = subprocess.run(["tools/try_patch.sh", "seeded/%s/patch.diff" % name, chk], stdout=subprocess.PIPE, stderr=subprocess.STDOUT, text=True)
-    v = sum(1 for l in p.stdout.split("\n") if l.startswith("VIOLATION"))
-    detail = "\n".join([l[:300] for l in p.stdout.split("\n") if l.startswith("violation:")][:5])
-    m["check_run"] = {"check": chk, "violations_reported": v, "detail": detail}
+    seeds = os.environ.get("SEEDS", "1").split()
+    hits, v, detail = 0, 0, ""
+    for sd in seeds:
+        p = subprocess.run(["tools/try_patch.sh", "seeded/%s/patch.diff" % name, chk], stdout=subprocess.PIPE, stderr=subprocess.STDOUT,
+                           text=True, env=dict(os.environ, VERIF_SEED=sd))
+        vv = sum(1 for l in p.stdout.split("\n") if l.startswith("VIOLATION"))
+        if vv:
+            hits += 1
+            v = max(v, vv)
+            detail = detail or "\n".join([l[:300] for l in p.stdout.split("\n") if l.startswith("violation:")][:5])
+    m["check_run"] = {"check": chk, "violations_reported": v, "detail": detail, "detected_in_runs": "%d/%d (VERIF_SEED in %s)" % (hits, len(seeds), ",".join(seeds))}
     json.dump(m, open(f, "w"), indent=1)
     subprocess.run(["python3", "tools/replays_to_corpus.py", chk, name, str(since)])
     print(name, chk, v, flush=True)
